@@ -6,7 +6,7 @@ from hypothesis import strategies as st
 
 from . import core, gen, render, pygen, values, ref_json, model as M
 
-RT_CFG = dict(omitted=False, schema='plain', route_io_any=True, max_ns=3, max_types=6, max_routes=3, examples=False)
+RT_CFG = dict(omitted=False, schema='plain', union_struct_bias=True, route_io_any=True, max_ns=3, max_types=6, max_routes=3, examples=False)
 
 
 def test_types(api):
